@@ -6,18 +6,20 @@ import hashlib, json, os, shutil, subprocess
 import vlib, gen_config as G
 
 NAMES = ["a/f.txt", "a/g.txt", "a/sub/h.rs", "b/x y.txt", "b/ünï.txt", 'c/q"uote.txt', "c/back\\slash.txt",
-         "c/tab\there.txt", "d/plain", "d/deep/er/file.c", "top.txt", "ign/skipped.txt", "a/日本.txt", "b/z.txt", "a/big.bin"]
+         "c/tab\there.txt", "d/plain", "d/deep/er/file.c", "top.txt", "ign/skipped.txt", "a/日本.txt", "b/z.txt", "a/big.bin",
+         " lead/x.txt", "b/notes ", "d/caf\u00e9\u00a0", "\u3000wide.txt", "a/ inner lead.txt"]     # leading / trailing blanks (ASCII, NBSP, ideographic space) are part of a name
 CFG = {"targets": [{"path": "a"}, {"path": "b", "uses": ["d/deep"]}, {"path": "c", "ignores": ["c/tab\there.txt"]}, {"path": "a/sub"}]}
 
 class Repo:
-    def __init__(self, ctx):
+    def __init__(self, ctx, object_format=None):
         self.ctx = ctx
+        self.object_format = object_format
         self.serial = 0
         self.blob_ids = {}        # git blob sha -> small content id
         self.sha256_ids = {}      # sha256 hex -> content id
         self.commits = []
         self.ever_empty = set()
-        self.repo = vlib.mk_repo(ctx, CFG, extra_files={"a/_keep": "k", "b/_keep": "k", "c/_keep": "k", "a/sub/_keep": "k"})
+        self.repo = vlib.mk_repo(ctx, CFG, extra_files={"a/_keep": "k", "b/_keep": "k", "c/_keep": "k", "a/sub/_keep": "k"}, object_format=object_format)
         with open(os.path.join(self.repo, ".gitignore"), "a") as f: f.write("ign/\n")
         vlib.git(self.repo, "add", "-A"); vlib.git(self.repo, "commit", "-q", "-m", "ignore")
         self.commits.append(self.rev("HEAD"))
@@ -42,7 +44,7 @@ class Repo:
             blob = meta.split()[2].decode()
             if blob not in self.blob_ids:
                 data = vlib.git(self.repo, "cat-file", "blob", blob)
-                self.cid_of_bytes(data)
+                self.blob_ids[blob] = self.cid_of_bytes(data)      # (the repository's own object name may be SHA-1 or SHA-256)
             t.append([path, self.blob_ids[blob]])
         return t
     def observe(self, extra_commits=()):
@@ -77,7 +79,25 @@ class Repo:
     def apply(self, rng, op=None):
         r = self.repo
         existing = [n for n in NAMES if os.path.isfile(os.path.join(r, n))]
-        op = op or rng.choice(["write", "write", "write", "modify", "delete", "mv", "gitmv", "add", "addall", "rmcached", "commit", "commit", "empty", "big", "bigtail", "bigtail"])
+        op = op or rng.choice(["write", "write", "write", "modify", "delete", "mv", "gitmv", "add", "addall", "rmcached", "commit", "commit", "empty", "big", "bigtail", "bigtail",
+                               "amend", "reset", "branch"])
+        genv = {**os.environ, **vlib.GIT_ENV}
+        if op == "amend" and len(self.commits) >= 2:
+            # rewrite the tip: a checkpoint taken at the old tip now names a commit that is no longer an ancestor of HEAD
+            if rng.random() < 0.5: vlib.git(r, "add", "-A")
+            rc = subprocess.run(["git", "commit", "-q", "--amend", "--allow-empty", "-m", "amended %d" % self.serial], cwd=r, capture_output=True, env=genv).returncode
+            self.serial += 1
+            if rc == 0: self.commits.append(self.rev("HEAD")); return ("amend",)
+        if op == "reset" and len(self.commits) >= 3:
+            # move HEAD back (index and files keep their state or only the files do): commits made since are off the branch
+            mode = rng.choice(["--soft", "--mixed"])
+            rc = subprocess.run(["git", "reset", "-q", mode, "HEAD~1"], cwd=r, capture_output=True, env=genv).returncode
+            if rc == 0: return ("reset", mode)
+        if op == "branch" and len(self.commits) >= 3:
+            # continue on a side branch that forks from an older commit (files that would be overwritten make git refuse: then nothing happens)
+            base = rng.choice(self.commits[:-1]); self.serial += 1
+            rc = subprocess.run(["git", "checkout", "-q", "-b", "side%d" % self.serial, base], cwd=r, capture_output=True, env=genv).returncode
+            if rc == 0: return ("branch", base[:8])
         if op == "bulk":
             # many new files at once: more than two analysis batches (50), an odd number of them
             k = rng.choice([101, 113, 150, 127])
@@ -218,8 +238,11 @@ def failing_update(ctx, repo, rng, trail):
 def scenario(ctx, sseed, focus):
     import random
     rng = random.Random(sseed)
-    repo = Repo(ctx)
-    trail = [["scenario_seed", sseed, focus]]
+    # one history in four lives in a SHA-256 repository (object names of 64 hex digits)
+    fmt = "sha256" if rng.random() < 0.25 else None
+    repo = Repo(ctx, object_format=fmt)
+    ctx.count("object_format_" + (fmt or "sha1"))
+    trail = [["scenario_seed", sseed, focus], ["object_format", fmt or "sha1"]]
     n_ops = rng.randint(8, 16)
     try:
         # a little history first
@@ -319,6 +342,22 @@ def c07_round(ctx, repo, rng, trail):
     ctx.count("fixpoint")
     ctx.record({"trail": list(trail), "what": "after update --pending analyze must report nothing"}, True, ok, ok, bool(new.get("pending")),
                detail={"analyze": out, "err": err})
+    if rng.random() < 0.35 and len(repo.commits) >= 3:
+        # the history is rewritten under the checkpoint without touching a single file: the checkpointed commit is no longer an
+        # ancestor of HEAD (amended message, HEAD moved back, side branch), yet nothing has changed, so nothing may be reported
+        genv = {**os.environ, **vlib.GIT_ENV}
+        # (only rewrites that leave the index alone: `reset --mixed` would turn tracked files into untracked ones, which are changes)
+        how = rng.choice(["amend_message", "reset_soft"])
+        cmd = {"amend_message": ["git", "commit", "-q", "--amend", "--allow-empty", "-m", "reworded"],
+               "reset_soft": ["git", "reset", "-q", "--soft", "HEAD~1"]}[how]
+        if subprocess.run(cmd, cwd=repo.repo, capture_output=True, env=genv).returncode == 0:
+            if how == "amend_message": repo.commits.append(repo.rev("HEAD"))
+            trail.append(["history_rewritten", how])
+            out = eval_changes(ctx, repo, {}, "C07", list(trail))
+            ok = out is not None and out.get("changes") == []
+            ctx.count("fixpoint_after_" + how)
+            ctx.record({"trail": list(trail), "what": "history rewritten under the checkpoint, no file touched: still nothing to report"}, True, ok, ok, True,
+                       sample={"how": how, "reported": [c["path"] for c in (out or {}).get("changes") or []]}, detail={"analyze": out})
     edited = set()
     r = repo.repo
     for _ in range(rng.randint(1, 4)):
